@@ -265,6 +265,21 @@ def _canon(comps, afi, keep=False):
 def _mismatch_kind(rule, got: bytes, vpn: bool) -> str:
     """Name the way the emitted bytes differ from the reference, by decoding them with the reference."""
     afi = rule['afi']
+    if afi == 2 and any(c in fs.PREFIX and len(p) == 3 and p[2] for c, p in rule['comps']):
+        # pre-RFC 8956 drafts carried the whole prefix after the offset octet; RFC 8956 3.1 carries only the
+        # bits from `offset` on, left-aligned
+        try:
+            parts = []
+            for c, p in sorted(rule['comps'], key=lambda x: x[0]):
+                if c in fs.PREFIX:
+                    parts.append(bytes([c, p[1], p[2]]) + fs.prefix6_bytes(p[0], p[1], 0)[2:])
+                else:
+                    parts.append(fs.encode_component(afi, c, p))
+            body = (fs.rd_bytes(rule['rd']) if rule.get('rd') else b'') + b''.join(parts)
+            if got == fs.encode_length(len(body)) + body:
+                return 'pattern-keeps-the-bits-before-offset'
+        except fs.Unencodable:
+            pass
     try:
         length, hdr = fs.decode_length(got)
         if got[:hdr] != fs.encode_length(len(got) - hdr):
@@ -908,7 +923,7 @@ def _block_worker(args):
                 ctx.count('nontrivial')
         for sig, what in viols:
             ctx.violation(sig, what, case)
-        if case['k'] == 'enc' and case['path'] == PATHS[0 if block[0] != 'multi' else -1] or (case['k'] == 'enc' and block[0] == 'multi' and case['path'] == 'line'):
+        if case['k'] == 'enc':
             # decode direction on every rule of the encode layers, once per rule: its reference encoding
             rule = case_rule(case)
             if expectation(rule)[0] != 'ok':
